@@ -25,9 +25,9 @@ func (*c01) ID() string    { return "C01" }
 func (*c01) Level() string { return "exploration" }
 func (*c01) NumCases(tier string) int {
 	if tier == "thorough" {
-		return 600000
+		return 700000
 	}
-	return 30000
+	return 70000
 }
 func (*c01) Rule() string {
 	return "each case = one generated program (scope/type-aware generator over the whole statement and expression grammar and all builtins; 30% take 1-4 host inputs of every runtime type) " +
@@ -156,6 +156,9 @@ func (c *c01) RunCase(r *fw.Rec, cs fw.Case) {
 	if cs.Index < len(c01Directed) {
 		src = c01Directed[cs.Index]
 		r.Inc("directed")
+	} else if sys := cs.Index - len(c01Directed); sys < c01SystematicN {
+		src = c01Systematic(sys)
+		r.Inc("systematic")
 	} else {
 		opts := gen.Options{MaxStmts: 4 + rng.Intn(28), MaxDepth: 2 + rng.Intn(3)}
 		switch rng.Intn(10) {
@@ -195,6 +198,55 @@ func (c *c01) RunCase(r *fw.Rec, cs fw.Case) {
 		return m
 	}
 	c.compare(r, cs, src, mkInputs, feat, nil, nil)
+}
+
+// systematic sweep: every binary operator on every ordered pair of value
+// kinds, every unary operator, index/slice/selector reads and writes and every
+// builtin on every kind (one small program each; compared with the model like
+// any other program).
+var c01Kinds = []string{"7", "-3", "0", "2.5", "true", "false", "'c'", "\"str\"", "\"\"", "bytes(\"by\")", "[1, 2]", "[]", "{k: 1}", "{}", "immutable([1, [2]])", "immutable({k: 1})",
+	"error(\"e\")", "undefined", "time(5)", "func(x) { return x }", "len", "9223372036854775807"}
+var c01Ops = []string{"+", "-", "*", "/", "%", "&", "|", "^", "&^", "<<", ">>", "<", "<=", ">", ">=", "==", "!=", "&&", "||"}
+var c01Builtins = []string{"len", "copy", "append", "delete", "splice", "string", "int", "bool", "float", "char", "bytes", "time", "is_int", "is_float", "is_string", "is_bool", "is_char", "is_bytes", "is_array",
+	"is_immutable_array", "is_map", "is_immutable_map", "is_iterable", "is_time", "is_error", "is_undefined", "is_function", "is_callable", "type_name", "format", "range", "freeze"}
+
+var c01SystematicN = len(c01Kinds)*len(c01Kinds)*len(c01Ops) + len(c01Kinds)*4 + len(c01Kinds)*len(c01Kinds)*3 + len(c01Builtins)*(1+len(c01Kinds)+len(c01Kinds)*len(c01Kinds))
+
+func c01Systematic(i int) string {
+	nk, no := len(c01Kinds), len(c01Ops)
+	if i < nk*nk*no {
+		a, b, op := c01Kinds[i%nk], c01Kinds[(i/nk)%nk], c01Ops[i/(nk*nk)]
+		return "a := " + a + "\nb := " + b + "\nr := a " + op + " b\nt := type_name(r)\n"
+	}
+	i -= nk * nk * no
+	if i < nk*4 {
+		return "a := " + c01Kinds[i%nk] + "\nr := " + []string{"-", "^", "!", "+"}[i/nk] + "a\nt := type_name(r)\n"
+	}
+	i -= nk * 4
+	if i < nk*nk*3 {
+		a, b := c01Kinds[i%nk], c01Kinds[(i/nk)%nk]
+		switch i / (nk * nk) {
+		case 0:
+			return "a := " + a + "\nb := " + b + "\nr := a[b]\nt := type_name(r)\n"
+		case 1:
+			return "a := " + a + "\nb := " + b + "\nr := a[b:]\nq := a[:b]\n"
+		default:
+			return "a := " + a + "\nb := " + b + "\na[b] = 1\nr := a\n"
+		}
+	}
+	i -= nk * nk * 3
+	per := 1 + nk + nk*nk
+	fn := c01Builtins[(i/per)%len(c01Builtins)]
+	j := i % per
+	switch {
+	case j == 0:
+		return "r := " + fn + "()\n"
+	case j <= nk:
+		return "a := " + c01Kinds[j-1] + "\nr := " + fn + "(a)\nt := type_name(r)\n"
+	default:
+		j -= 1 + nk
+		return "a := " + c01Kinds[j%nk] + "\nb := " + c01Kinds[j/nk] + "\nr := " + fn + "(a, b)\nt := type_name(r)\n"
+	}
 }
 
 const c01Limit = 65536
@@ -328,7 +380,7 @@ func errKind(s string) string {
 }
 
 func (c *c01) Finish(m *fw.Merged, tier string) {
-	need := []string{"engine:ok", "engine:runtime-error", "model:ok", "directed"}
+	need := []string{"engine:ok", "engine:runtime-error", "model:ok", "directed", "systematic"}
 	for _, k := range need {
 		if m.Counters[k] == 0 {
 			m.Fail("never observed: " + k)
